@@ -173,7 +173,7 @@ func c11Integrated(e *Env) {
 			e.Probe("integrated-lookup-failed")
 			e.Fault("provider-empty")
 		case 3:
-			out = provOutcome{err: fmt.Errorf("simulated provider error")}
+			out = provOutcome{err: []error{fmt.Errorf("simulated provider error"), fmt.Errorf("describe instances: %w", context.DeadlineExceeded), fmt.Errorf("describe instances: %w", context.Canceled)}[e.Draw(3)]}
 			e.Probe("integrated-lookup-failed")
 			e.Fault("provider-error")
 		}
